@@ -59,6 +59,10 @@ CHECKS = {
  'C17': dict(cat='exploration', technique='bounded-exhaustive enumeration of documentation texts over escaping classes and of overload/XML-tree shapes; literals decoded by an independent C++ literal decoder and by g++ and compared with the extracted text',
              text='Every documentation text of length <=2 (3) over 20 escaping-class representatives (quotes, backslash, newline, tab, %, braces, ?, DEL, U+0085, U+00AD, Latin-1, CJK, U+2028, emoji, hex-digit letters) as the docstring of its own method: the literal after the .def must be well-formed C++ and decode (own decoder and g++) to exactly the extracted text; 12 member shapes (overloads told apart by names or by order, optional parameters, brief only, undocumented, absent) x complete / index-less / missing XML trees, unindexed class, missing and ill-formed class file: each binding carries the marker of its own member and no other, missing pieces give an empty docstring and never an error; output minus literals equals output without XML; one wrapper used twice gives the same result.',
              note='Own Doxygen XML emitter; characters XML 1.0 cannot carry are outside the alphabet.', ref='2/C17'),
+
+ 'C19': dict(cat='exploration', technique='exhaustive enumeration of nesting chains (namespace depth x template depth x type position) and file sizes, with a deterministic cost oracle (pyparsing function activations via sys.monitoring) and consecutive-depth ratio bounds',
+             text='All (namespace depth a, template-argument depth b) with a+b <= 10 (16) for a templated type in each of 6 positions, and files of 25..200 (400) declarations of 8 kinds: the number of pyparsing function activations during Module.parseString (deterministic, no wall clock) may grow by at most a factor 1.7 per extra nesting level from depth 6 on (degree-3 polynomial: <= 1.59; exponential re-parsing: >= 2) and per-declaration cost must stay within 2x of its value at 25 declarations.',
+             note='Cost model = interpreter-level activations inside pyparsing; CPU seconds recorded as evidence only.', ref='2/C19'),
 }
 NOT_YET = 'check not built yet in this session (see DESIGN.md for the planned exhaustive exploration)'
 
